@@ -15,7 +15,10 @@ def _scenario(what, h0, sp, h1, s0, s1, target, clean):
         base = w.open_fds()
         w.c.pack_all_loose(clean_loose_per_pack=clean)
         if what == 'views':
-            return views_ok(w.c, w, objs, ABSENT)
+            w.reset_max_open()
+            if not views_ok(w.c, w, objs, ABSENT):
+                return False
+            return w.max_open() <= 1  # C18: bulk reads keep at most one pack or loose file open at a time
         if what == 'validate':
             if not w.c.validate().is_valid():
                 return False
